@@ -41,9 +41,13 @@ func verifDeployAddr() string {
 	return a
 }
 
+var verifLastJob RunningJob
+var verifLastAddr string
+
 func verifDeploy(ps *prover.ProvingSystem, mode string) http.Handler {
 	cfg := Config{ProverAddress: verifDeployAddr(), MetricsAddress: verifDeployAddr(), Mode: mode}
-	Run(&cfg, ps)
+	verifLastJob = Run(&cfg, ps)
+	verifLastAddr = cfg.ProverAddress
 	for i := 0; i < 200; i++ {
 		c, err := net.Dial("tcp", cfg.ProverAddress)
 		if err == nil {
